@@ -343,6 +343,11 @@ def fix_ptm(molecule):
                            type='unknown-input')
             for idxs in res_ptms:
                 for idx in idxs[0]:
+                    # Atoms that merely carry an annotated modification are
+                    # known to the residue template; only the atoms nothing
+                    # accounts for are removed.
+                    if not molecule.nodes[idx].get('PTM_atom', False):
+                        continue
                     molecule.remove_node(idx)
                     removed.add(idx)
             continue
